@@ -965,6 +965,11 @@ fn supervise(ctx: &Ctx) -> Outcome {
     for w in &workers {
         let _ = std::fs::remove_file(&w.hb_path);
     }
+    for site in raqote::verif::SITES.iter().filter(|s| s.starts_with("shader:") || s.starts_with("blitter:")) {
+        if merged_stats.get(&format!("worker_hook:{}", site)) == 0 && ctx.scale_div == 1 {
+            out.inconclusive(format!("no worker ever reached {}", site));
+        }
+    }
     merged_stats.add("worker_processes", nshards);
     merged_stats.add("worker_restarts", restarts);
     out.stats.merge(&merged_stats);
@@ -1001,6 +1006,12 @@ fn collect(w: &Worker, out: &mut Outcome, stats: &mut Stats) {
     if let Some(J::Obj(o)) = cov.get("observed") {
         for (k, v) in o {
             stats.add(k, v.as_i64().unwrap_or(0) as u64);
+        }
+    }
+    // the hook counters live in the worker processes
+    if let Some(J::Obj(o)) = cov.get("hooks") {
+        for (k, v) in o {
+            stats.add(&format!("worker_hook:{}", k), v.as_i64().unwrap_or(0) as u64);
         }
     }
     if out.samples.len() < 4 {
